@@ -1930,6 +1930,62 @@ pub fn f_recreate(seed: u64) -> Plan {
 }
 
 // ------------------------------------------------------------------------------------------------
+// F-conn: one client connection. Pull, Acknowledge and GetSubscription travel over one real HTTP/2
+// connection (hyper + h2 on an in-memory pipe) to the real tonic transport server (plan tag "conn"):
+// 8-90 Pulls are parked on the connection, then ordinary and malformed requests are sent on the
+// same connection; they must be answered at once, and a publish must still reach the parked Pulls.
+// ------------------------------------------------------------------------------------------------
+
+pub fn f_conn(seed: u64) -> Plan {
+    let mut rng = Rng::new(seed);
+    let mut plan = Plan { seed, family: "conn".into(), final_drain: false, health_probe: true, ..Default::default() };
+    plan.tags.push("conn".into());
+    plan.knobs = knobs(&mut rng, false, 0);
+    plan.knobs.stall_permille = 0;
+    plan.knobs.long_stall_permille = 0;
+    let topic = topic_name("proj-k", 0);
+    let parked_on = sub_name("proj-k", 0, 0);
+    let other = sub_name("proj-k", 0, 1);
+    plan.phases.push(Phase {
+        scripts: vec![vec![
+            Step::new(Op::CreateTopic { topic: topic.clone() }),
+            Step::new(Op::CreateSub { sub: parked_on.clone(), topic: topic.clone(), ack_deadline: 10, push: None }),
+            Step::new(Op::CreateSub { sub: other.clone(), topic: topic.clone(), ack_deadline: 10, push: None }),
+        ]],
+        advance_us: 0,
+        audit: false,
+    });
+    let n = *rng.pick(&[8u64, 20, 31, 32, 33, 40, 64, 90]);
+    let mut scripts = Vec::new();
+    for i in 0..n {
+        scripts.push(vec![Step::after(rng.below(3) * rng.below(2_000), Op::PullBg { slot: 1 + i as u32, sub: parked_on.clone(), max: *rng.pick(&[1i32, 10]) })]);
+    }
+    plan.phases.push(Phase { scripts, advance_us: rng.below(3) * rng.below(2_000_000), audit: false });
+    let mut scripts = Vec::new();
+    for _ in 0..rng.range(1, 4) {
+        let op = match rng.below(5) {
+            0 | 1 => Op::GetSub { sub: other.clone() },
+            2 => Op::GetSub { sub: rng.pick(&["projects/proj-k/subscriptions/", "nonsense", "projects//subscriptions/x", "projects/proj-k/topics/topic-0"]).to_string() },
+            3 => Op::Ack { sub: other.clone(), sel: Sel { mine: false, pick: Pick::None, extra: vec![rng.pick(&["this is not an ack id", "", "1:2:3", "-1"]).to_string()], ..Sel::none() } },
+            _ => Op::Pull { sub: other.clone(), max: 10, immediate: true },
+        };
+        scripts.push(vec![Step::after(rng.below(3) * rng.below(1_000), op)]);
+    }
+    plan.phases.push(Phase { scripts, advance_us: rng.below(2) * rng.below(1_000_000), audit: false });
+    let k = rng.range(1, 3);
+    plan.phases.push(Phase {
+        scripts: vec![vec![
+            Step::new(Op::Publish { topic: topic.clone(), msgs: msgs(&mut rng, k as usize, false) }),
+            Step::after(rng.below(1_000), Op::GetSub { sub: other.clone() }),
+            Step::new(Op::Pull { sub: other.clone(), max: 10, immediate: true }),
+        ]],
+        advance_us: 0,
+        audit: true,
+    });
+    plan
+}
+
+// ------------------------------------------------------------------------------------------------
 // F-redelete: a DeleteSubscription that is slow (its round trip to the topic actor is held up) while
 // the same name is created again, next to a subscription that stays; afterwards both listings and
 // GetSubscription are read sequentially.
